@@ -18,6 +18,8 @@
 //	n TakeFileSnapshot                   m metrics collection              k rotation tick (segments(true)...)
 //	f<i><v> inject shard-open failure    c db.Close                        R every client releases everything
 //	h<c><i> arm: during the next TSTable.Close another goroutine runs client c's incRef(i)
+//	D<i>    arm: while the next op reopens segment i (inside initialize, under s.mu, after acquire's
+//	        mustBeDeleted check) another goroutine runs DeleteExpiredSegments([i]); it is joined after the op
 package main
 
 import (
@@ -94,6 +96,8 @@ type world struct {
 	mu         sync.Mutex
 	onClose    func()
 	hookRes    string
+	openHook   atomic.Int32 // segment+1 armed by D
+	delDone    chan struct{}
 	usedClosed atomic.Int32
 	k          int
 	closed     bool
@@ -138,6 +142,9 @@ func open(k int) *world {
 				return nil, fmt.Errorf("unknown segment %q", p.Segment)
 			}
 			sh, _ := strconv.Atoi(p.Shard)
+			if w.openHook.CompareAndSwap(int32(i+1), 0) {
+				w.raceDelete(i)
+			}
 			if int(w.fail[i].Load()) == sh+1 {
 				return nil, errors.New("injected shard open failure")
 			}
@@ -172,6 +179,26 @@ func open(k int) *world {
 	}
 	w.segs = lst
 	return w
+}
+
+// raceDelete runs on the goroutine that is inside segment.initialize (holding s.mu): it starts a
+// second goroutine that deletes the same segment and waits until that one has stored the delete flag
+// (and, with overwhelming probability, has loaded refCount == 0 and is blocked on s.mu).
+func (w *world) raceDelete(i int) {
+	done := make(chan struct{})
+	w.delDone = done
+	go func() {
+		defer close(done)
+		w.db.DeleteExpiredSegments([]string{w.segs[i].Suffix()})
+	}()
+	deadline := time.Now().Add(2 * time.Second)
+	for time.Now().Before(deadline) {
+		if _, _, mbd, _ := w.segs[i].StateNoLock(); mbd {
+			break
+		}
+		time.Sleep(time.Millisecond)
+	}
+	time.Sleep(30 * time.Millisecond)
 }
 
 func (w *world) inList(i int) bool {
@@ -391,6 +418,9 @@ func (w *world) op(o string) string {
 			}
 		}
 		return "ok"
+	case 'D':
+		w.openHook.Store(int32(dig(o[1], w.k) + 1))
+		return "ok"
 	case 'h':
 		c, i := dig(o[1], 10), dig(o[2], w.k)
 		w.mu.Lock()
@@ -432,13 +462,23 @@ func seq(f []string) string {
 	out = append(out, "init="+w.dump())
 	for _, o := range f[2:] {
 		r := w.op(o)
-		if o[0] != 'h' {
-			// the hook is armed for the op that follows `h` only
+		if o[0] != 'h' && o[0] != 'D' {
+			// a hook is armed for the op that follows `h` / `D` only
 			w.mu.Lock()
 			w.onClose = nil
 			w.mu.Unlock()
+			w.openHook.Store(0)
 			r += w.hookRes
 			w.hookRes = ""
+			if w.delDone != nil {
+				select {
+				case <-w.delDone:
+					r += "+D:done"
+				case <-time.After(10 * time.Second):
+					r += "+D:stuck"
+				}
+				w.delDone = nil
+			}
 		}
 		out = append(out, r+"="+w.dump())
 	}
